@@ -846,3 +846,11 @@ mod test {
         assert!(bit_reader.read_bits::<u8>(4).is_err()); //error
     }
 }
+
+/// Verification hooks (add-only): access to the private state of `BitReader`.
+#[cfg(image_webp_verif)]
+impl<R: BufRead> BitReader<R> {
+    pub(crate) fn verif_into_parts(self) -> (R, u64, u8) {
+        (self.reader, self.buffer, self.nbits)
+    }
+}
